@@ -403,14 +403,10 @@ func ingressShare(a map[string]string) (int, string) {
 func (w *World) projectMem() map[string]interface{} {
 	g := grace.DumpForVerif()
 	gf, gold := []string{}, []string{}
-	other := w.Peer
-	if w.parent != nil {
-		other = w.parent
-	}
 	for k, m := range g {
 		// with a second scenario in the cluster, entries under the OTHER scenario's keys are not this one's;
-		// entries under keys neither scenario owns are shown to both (a keying defect then shows as drift)
-		if other != nil && other.own[k] && !w.own[k] {
+		// entries under keys neither scenario owns are shown to both (a keying defect then shows as a difference)
+		if w.foreignKey(k) {
 			continue
 		}
 		for a, t := range m {
